@@ -430,7 +430,8 @@ pub fn malformed_frames() -> Vec<(&'static str, Vec<u8>)> {
 
 /// Commands that arrive behind a blocking pop: the client is blocked, so nothing behind the BLPOP may be executed or
 /// answered until it is served or timed out; afterwards every reply arrives, in request order.
-/// Complete product: 3 blocking forms x 8 tails x {one write, tail in a second write while blocked}.
+/// Complete product: 3 blocking forms x 8 tails x {one write, tail in a second write while blocked, one command held back in the
+/// first write and the tail in a second write}.
 fn blocked_pipeline_cases(h: &mut Harness, res: &mut Vec<Value>) -> Result<(), String> {
     #[derive(Clone)]
     enum Want {
@@ -457,8 +458,12 @@ fn blocked_pipeline_cases(h: &mut Harness, res: &mut Vec<Value>) -> Result<(), S
     ];
     for (bname, bcmd, by_push) in blocks.iter() {
         for (tname, tbytes, twant, closes) in tails.iter() {
-            for two_writes in [false, true] {
-                let name = format!("blocked pipeline: ECHO m1, {}, {}{}", bname, tname, if two_writes { " (tail in a second write)" } else { "" });
+            // mode 2: one command is held back behind the blocking pop in the first write AND the tail arrives in a second
+            // write while the client is blocked (a seeded change ran what it had just read ahead of what it held back)
+            for mode in 0..3 {
+                let two_writes = mode >= 1;
+                let held = mode == 2;
+                let name = format!("blocked pipeline: ECHO m1, {}, {}{}", bname, tname, match mode { 0 => "", 1 => " (tail in a second write)", _ => " (ECHO held in the same write, tail in a second write)" });
                 h.ensure()?;
                 h.aux_call(&["FLUSHALL"])?;
                 let mut cli = h.srv.as_ref().unwrap().connect().map_err(|e| format!("connect: {:?}", e))?;
@@ -467,8 +472,11 @@ fn blocked_pipeline_cases(h: &mut Harness, res: &mut Vec<Value>) -> Result<(), S
                 if !two_writes {
                     first.extend_from_slice(tbytes);
                 }
+                if held {
+                    first.extend(resp::cmd(&["ECHO", "held"]));
+                }
                 cli.send(&first);
-                let total = 2 + twant.len();
+                let total = 2 + twant.len() + if held { 1 } else { 0 };
                 let (mut got, mut err) = h.collect(&mut cli, total, 4);
                 if two_writes && err.is_none() {
                     cli.send(tbytes);
@@ -509,6 +517,9 @@ fn blocked_pipeline_cases(h: &mut Harness, res: &mut Vec<Value>) -> Result<(), S
                         err = e2;
                     }
                     let mut want: Vec<Want> = vec![Want::Is(R::Bulk(b"m1".to_vec())), first_reply];
+                    if held {
+                        want.push(Want::Is(R::Bulk(b"held".to_vec())));
+                    }
                     want.extend(twant.iter().cloned());
                     let matches = got.len() == want.len() && got.iter().zip(want.iter()).all(|(g, w)| match w {
                         Want::Is(r) => crate::model::same(r, g),
